@@ -794,7 +794,7 @@ class C04(Check):
     prop = "C04"
     props_file = "Props/C04.v"
     models = ["Dtls"]
-    quick_cases = 8000
+    quick_cases = 6000
     thorough_cases = 200000
     case_timeout = 60.0
     level_note = (
@@ -996,9 +996,7 @@ class C04(Check):
         fps = resolve_fps(case["fps"], cert)
         params = M.RTCDtlsParameters(fingerprints=[M.RTCDtlsFingerprint(algorithm=a, value=v) for a, v in fps])
         sess._validate_peer_identity(params)
-        ok = sess._state != M.State.FAILED
-        if not ok and sess._state != M.State.FAILED:
-            raise RuntimeError
+        ok = sess._state != M.State.FAILED       # the state is left at NEW when the policy passes
         # certificate_digest is the oracle: it must be what the independent computation says
         for a in ALGS:
             if M.certificate_digest(cert._cert, a) != true_digest(cert, a):
@@ -1233,7 +1231,6 @@ class C04(Check):
                 return ("keys-mirror", "connected sides do not hold mirror-image SRTP keys")
             if out[0][0][0][1][5] != out[1][0][0][1][5]:
                 return ("keys-mirror", "connected sides use different SRTP profiles")
-            pref = rec["sides"][rec["server"]]
             for j in range(2):
                 r = rec["sides"][j]
                 name = bytes(r["selected"] or b"")
